@@ -1,6 +1,8 @@
 (* C12 - Length and area equal the defining integrals (area: proof; length: see DESIGN.md, not modelled). Statements only. *)
 From Coq Require Import List Arith QArith Reals Qreals.
 From BZ Require Import Base.Ops Base.RInst Model.Curve Model.AreaPoly Gen.PyTriangleHelpers Theory.AreaTheory.
+From Coq Require Import Bool.
+From BZ Require Import Model.CurvePy Gen.F90Const Theory.Twins.
 Import ListNotations.
 
 (* shoelace_for_area (triples and scale factor read from the source) IS the Green boundary integral
@@ -25,3 +27,14 @@ Theorem C12_area_is_sum_of_edge_integrals :
   compute_area_gen ROps Q2R edges = Some (fold_right (fun e acc => (green_edge ROps (fst e) (snd e) + acc)%R) 0%R edges).
 Proof. exact compute_area_is_sum. Qed.
 Print Assumptions C12_area_is_sum_of_edge_integrals.
+
+(* the weights and divisors hard-coded in triangle.f90 shoelace_for_area (edges of 2 .. 5 nodes), read from the Fortran text by the
+   translator, ARE the Python tables - which are the Green integral (above); other sizes set not_implemented *)
+Theorem C12_compiled_shoelace_closed_forms_are_the_python_tables :
+  forallb (fun e => match lookup (fst e) shoelace_dispatch with
+                    | Some (tbl, dv) => qmat_eqb (fst (snd e)) tbl && Qeq_bool (snd (snd e)) dv
+                    | None => false
+                    end) f90_shoelace_closed_forms = true
+  /\ map fst f90_shoelace_closed_forms = map fst shoelace_dispatch.
+Proof. exact compiled_shoelace_closed_forms_are_the_python_tables. Qed.
+Print Assumptions C12_compiled_shoelace_closed_forms_are_the_python_tables.
